@@ -27,6 +27,9 @@ def tip_state(pat, i):
     return (i * i + i // 3) % 4
 
 
+PAT_W = {0: 2, 1: 1, 2: 1}       # the conserved column appears twice in the alignment (pattern weight 2)
+
+
 def make_tree(shape, n, rng):
     if shape == "caterpillar":
         t = 0
@@ -36,7 +39,7 @@ def make_tree(shape, n, rng):
     return trees.random_tree(rng, n, shape)
 
 
-def build(shape, n, tree, subst, x, B=None, mixed=False):
+def build(shape, n, tree, subst, x, B=None, mixed=False, tip_states=False):
     torch = impl.load()
     from torchtree.evolution.tree_likelihood import TreeLikelihoodModel
     names = [f"s{i}" for i in range(n)]
@@ -51,10 +54,12 @@ def build(shape, n, tree, subst, x, B=None, mixed=False):
               "frequencies": impl.param_json("freqs", subst["freqs"])}
     aln = {"id": "aln", "type": "Alignment", "datatype": "nucleotide", "taxa": "taxa",
            "sequences": [{"taxon": names[i], "sequence": "A" + ("C" if i % 16 == 0 else "A") +
-                          ("ACGT"[tip_state(2, i)] if mixed else "")} for i in range(n)]}
+                          ("ACGT"[tip_state(2, i)] if mixed else "") + "A"} for i in range(n)]}
     d = {"id": "like", "type": "TreeLikelihoodModel", "tree_model": tm,
          "site_model": {"id": "sm", "type": "ConstantSiteModel"}, "substitution_model": sm,
          "site_pattern": {"id": "sp", "type": "SitePattern", "alignment": aln}}
+    if tip_states:
+        d["use_tip_states"] = True
     dic = {}
     like = TreeLikelihoodModel.from_json(d, dic)
     return like, dic
@@ -90,7 +95,7 @@ def ref_loglik(tree, n, x, subst_obj, pats=(0, 1)):
         import sys
         sys.setrecursionlimit(10000)
         p, s = rec(it)
-        total.append(math.log(sum(f * v for f, v in zip(freqs, p))) + s)
+        total.append(PAT_W[pat] * (math.log(sum(f * v for f, v in zip(freqs, p))) + s))
     return total
 
 
@@ -103,7 +108,7 @@ def coq_case(shape, n, tree, Ms, freqs, mixed=False):
     e = lambda k: "[" + "; ".join(("ofQ NumI 1" if j == k else "ofQ NumI 0") for j in range(4)) + "]"
     return (f"let P := fun j : nat => if Nat.eqb j {C.natlit(2 * n - 3)} then {ident} else "
             f"lk [{M(Ms[0])}; {M(Ms[1])}] (Nat.modulo j 2) [] in "
-            f"let pats := [(ofQ NumI 1, fun i : nat => {e(0)}); "
+            f"let pats := [(ofQ NumI 2, fun i : nat => {e(0)}); "
             f"(ofQ NumI 1, fun i : nat => if Nat.eqb (Nat.modulo i 16) 0 then {e(1)} else {e(0)})"
             + (f"; (ofQ NumI 1, fun i : nat => lk [{e(0)}; {e(1)}; {e(2)}; {e(3)}] "
                f"(Nat.modulo (i * i + Nat.div i 3) 4) [])" if mixed else "") + "] in "
@@ -132,7 +137,7 @@ def run(tier, seed, replay=None):
             like, dic = build(shape, n, tree, subst, 0.01)
             sm = like.subst_model
             # place the sweep: bisection on the branch-length scale for the smaller of the two site log-likelihoods
-            f = lambda x: min(ref_loglik(tree, n, x, sm))
+            f = lambda x: min(v / PAT_W[k] for k, v in enumerate(ref_loglik(tree, n, x, sm)))
             def solve(target):
                 lo, hi = 1e-4, 50.0
                 if f(hi) > target:
@@ -159,6 +164,15 @@ def run(tier, seed, replay=None):
                 v = float(lk().detach())
                 evals.append(dict(shape=shape, subst=subst, tree=tree, x=x, mode="fresh", value=v,
                                   flag_before=False, flag_after=bool(lk.rescale)))
+            # (1b) the tip-STATES code path (its own recursion and its own switch), fresh model per point
+            for x in xs[1:2 + per_band:2] + xs[-2:-1]:
+                lk, dc = build(shape, n, tree, subst, x, tip_states=True)
+                v = float(lk().detach())
+                v2 = float(lk().detach())       # evaluated again: must be the same number
+                evals.append(dict(shape=shape, subst=subst, tree=tree, x=x, mode="fresh-tipstates", value=v,
+                                  flag_before=False, flag_after=bool(lk.rescale)))
+                evals.append(dict(shape=shape, subst=subst, tree=tree, x=x, mode="again-tipstates", value=v2,
+                                  flag_before=bool(lk.rescale), flag_after=bool(lk.rescale)))
             # (2) one model, history: up through the band and back down (evaluations after the switch)
             hist = xs + xs[::-1][1:]
             fb = bool(like.rescale)
@@ -217,7 +231,7 @@ def run(tier, seed, replay=None):
     def regime(e):
         if e.get("mixed"):
             return "mixed-conservation"
-        per_site = e["ref"] / 2
+        per_site = e["ref"] / 3
         return "normal" if per_site > LN_TINY + 1 else ("subnormal-band" if per_site > LN_DENORM - 1 else "beyond")
 
     def check_float(e, ref):
@@ -281,7 +295,8 @@ def run(tier, seed, replay=None):
             rep.violation(k, f"{e['shape']} n={n} {e['subst']['type']} branch scale {e['x']!r}: {bad}",
                           dict(shape=e["shape"], n=n, subst=e["subst"], x=e["x"], mode=e["mode"], value=e["value"],
                                reference=mid))
-    rep.rule = (f"trees with {n} taxa (caterpillar, balanced, random), JC69/HKY, two site patterns, all branch lengths "
+    rep.rule = (f"trees with {n} taxa (caterpillar, balanced, random), JC69/HKY, two site patterns (one of them with weight 2), "
+                "tip partials and tip states, all branch lengths "
                 "scaled by x; x swept from where site likelihoods are normal, through every part of the subnormal band "
                 "[5e-324, 2.2e-308] (placed by bisection), to where the plain result is -inf; each x evaluated on a fresh "
                 "model, inside one up-and-down history on a single model (flag observed), in a batch mixing regimes and in "
